@@ -73,6 +73,9 @@ fn c08_type<P: KS>(out: &mut Out, seed: u64, tier: &Tier, counter: &mut usize) {
     let p = P::k();
     let mut ks: Vec<usize> = (p + 1..p + 10).collect();
     ks.extend_from_slice(&[p + 14, 2 * p + 19]);
+    // k far beyond every shipped Kmer type (k is a run-time argument of msp_sequence): pieces of 2k-p > 255 bases, i.e.
+    // longer than a u8 length could hold (seeded change C08-m6), well below the u16 limit of known finding F7b
+    ks.extend_from_slice(&[140 + p, 263]);
     let reps = if tier.thorough { 60 } else { 6 };
     for &k in &ks {
         for rep in 0..reps {
